@@ -86,6 +86,14 @@ theorem dispatch_no_result (env : DEnv) (s : DState) (caller : SessKey) (req : N
   · exact syncError_no_result _ _ _ _ _ _ _
   · simp [hm]
 
+theorem dispatchL_no_result (env : DEnv) (s : DState) (caller : SessKey) (req : Nat) (callee : SessKey) (invReq : Nat)
+    (v : Invk) (timeout : Nat) (m : Msg) (hm : m.isResult = false) :
+    ∀ x ∈ (dispatchL env s caller req callee invReq v timeout m).sends, x.msg.isResult = false := by
+  unfold dispatchL
+  split
+  · exact syncError_no_result _ _ _ _ _ _ _
+  · simp [hm]
+
 theorem syncCall_no_result (env : DEnv) (s : DState) (caller : SessKey) (req : Nat) (opts : Dict) (proc : String)
     (args : List WVal) (kw : Dict) (rnd : Nat) :
     ∀ x ∈ (syncCall env s caller req opts proc args kw rnd).sends, x.msg.isResult = false := by
@@ -96,7 +104,7 @@ theorem syncCall_no_result (env : DEnv) (s : DState) (caller : SessKey) (req : N
     · split
       · simp [progressAbort, abortMsg, Msg.isResult]
       · unfold laterChunk
-        exact dispatch_no_result _ _ _ _ _ _ _ _ _ rfl
+        exact dispatchL_no_result _ _ _ _ _ _ _ _ _ rfl
   · split
     · simp [errMsg, Msg.isResult]
     · split
